@@ -717,6 +717,11 @@ class SimWorld:
             if n > 1:
                 self.fail("two-operations-in-flight", (sname(o.status),), "order is in %d undelivered packages (%s)" % (n, [p.package_type.name for p in queue if o in p._orders]))
             st_ = sname(o.status)
+            if o.bet_id is None and o.size_matched:
+                # an order that never reached the exchange (placement refused / failed: no bet id) cannot be matched;
+                # a complete order that is matched afterwards inside one update shows up here, not as a transition
+                self.fail("matched-without-bet-id", (st_, o.order_type.ORDER_TYPE.name),
+                          "order without a bet id has size_matched %s (log %s)" % (o.size_matched, [sname(x) for x in o.status_log]))
             prev = self.completed_seen.get(id(o))
             if prev is not None:
                 if st_ in LIVE:
@@ -1034,6 +1039,26 @@ def make_machine(world_cls, checks, cfg_strategy, rule_weights=None):
             bsp = [round(prices[max(0, min(self.nt - 1, self.mids[r] + d(st.integers(-4, 4))))] + d(st.sampled_from([0, 0.013])), 3)
                    if d(st.integers(0, 5)) else None for r in range(self.nr)]
             self._do({"_": "inplay", "dt": 1000, "bet_delay": d(st.sampled_from([0, 1, 5])), "status": "OPEN", "bump": True, "bsp": bsp})
+
+        @precondition(lambda self: rw["inplay"] > 0 and rw["place"] > 0)
+        @rule(data=st.data())
+        def late_sp(self, data):
+            """directed: a starting-price order requested once the market is in play and the starting price
+            reconciled - its placement fails at the exchange (no bet id); nothing may ever be matched on it"""
+            if not self.w or not self.w.spec.get("bsp_market"):
+                return
+            d = data.draw
+            prices = self.w.prices
+            bsp = [round(prices[max(0, min(self.nt - 1, self.mids[r] + d(st.integers(-4, 4))))], 2) for r in range(self.nr)]
+            self._do({"_": "inplay", "dt": 1000, "bet_delay": d(st.sampled_from([0, 1])), "status": "OPEN", "bump": True, "bsp": bsp})
+            self._do({"_": "book", "dt": 1000, "rc": []})
+            r = d(st.integers(0, self.nr - 1))
+            side = d(st.sampled_from(["BACK", "LAY"]))
+            self._do({"_": "req", "op": "place", "si": d(st.integers(0, self.ns - 1)), "r": r, "side": side, "type": d(st.sampled_from(["MOC", "LOC"])),
+                      "liability": d(st.sampled_from([2.0, 10.0])), "tick": (max(0, self.mids[r] - 20) if side == "BACK" else min(self.nt - 1, self.mids[r] + 20)),
+                      "trade": "new"})
+            self._do({"_": "book", "dt": 3000, "rc": []})
+            self._do({"_": "book", "dt": 1000, "rc": []})
 
         @precondition(lambda self: rw["remove"] > 0)
         @rule(r=st.integers(0, 3), af=st.sampled_from([1.0, 2.5, 10, 40]))
